@@ -167,6 +167,41 @@ META = {
         detected_by={"C20": "spherical_roundtrip / spherical_convention (both poles are in the hostile point set)"},
         strengthening=None,
     ),
+    "C01b": dict(
+        summary="the initial ODE state vector is built with np.ravel(a, order='K') ('no intermediate copies') instead of flatten()+hstack: memory order instead of logical order",
+        needs="mineral.orientations[-1] (typically orientations_init) with a non-C memory layout: Fortran-ordered copy or a (3,3,n) stack viewed through np.moveaxis",
+        detected_before_strengthening=False,
+        detected_by={"C01": "snapshot_valid/orthonormal and /right_handed after the first update of an F-ordered / moveaxis texture"},
+        strengthening="histories hand arrays to the Mineral in four memory layouts (C, Fortran, non-contiguous moveaxis view, read-only)",
+    ),
+    "C05b": dict(
+        summary="eval_rhs caches the non-dimensionalised velocity gradient per call and reuses it while np.allclose(L, cached) (absolute tolerance 1e-8 on a dimensional quantity)",
+        needs="a velocity gradient that varies inside one update call, with entries below ~1e-8 (k <~ 1e-8), not cut into many short calls",
+        detected_before_strengthening=True,
+        detected_by={"C05": "rescale:textures_related / gbs_mask_mismatch on time- and position-dependent fields at k in {1e-16, 1e-15, 1e-9}"},
+        strengthening=None,
+    ),
+    "C06b": dict(
+        summary="eval_rhs starts with t = np.clip(t, time_start, time_end) ('guard against probing outside the interpolant'): for a reversed interval clip(lo > hi) always returns time_end",
+        needs="a reversed interval (time_start > time_end) together with a time- or position-dependent velocity gradient",
+        detected_before_strengthening=False,
+        detected_by={"C06": "F_equals_reference on reversed intervals"},
+        strengthening="reversed intervals (25 % of C06 histories, 8 % of all others)",
+    ),
+    "C07b": dict(
+        summary="refactor of the two dislocation branches of core.derivatives into one helper; the frictional_yielding call passes gbm_mobility and nucleation_efficiency in swapped positions",
+        needs="regime frictional_yielding with M* = 0 and lambda* != 0 (volume fractions drift although the mobility is zero)",
+        detected_before_strengthening=True,
+        detected_by={"C07": "fractions_unchanged[M=0] (regime 6)", "C02": "volume_rate_equals_reference (regime 6)", "C03": "zero_mobility_zero_rate"},
+        strengthening=None,
+    ),
+    "C09b": dict(
+        summary="perform_step passes params['number_of_grains'] instead of self.n_grains to apply_gbs",
+        needs="chi > 0 and a Mineral whose n_grains differs from the params dictionary's number_of_grains",
+        detected_before_strengthening=True,
+        detected_by={"C09": "hist:stored_frozen_equals_previous / hist:stored_floor (the history oracle recomputes the mask with the mineral's own n_grains)"},
+        strengthening=None,
+    ),
 }
 
 
